@@ -40,8 +40,10 @@ def run(ctx):
         for r in rs:
             ctx.cov["states"] += r.distinct
             ctx.cov["transitions"] += r.generated
-        if quick and name in ("ws", "xws"):
-            thin(cases, 8)          # the skip-rule variants multiply this slice; the passes act on the main rule
+        if name in ("ws", "xws"):
+            # the skip-rule variants multiply this slice and the passes act on the main rule: an even sample (unthinned,
+            # the size-3 slice keeps every TLC shard busy for well over an hour)
+            thin(cases, 8 if quick else 6)
         # split into several batch files so that TLC shards run in parallel
         parts = 6 if quick else 12
         lines = nl_lines(cases)
